@@ -258,6 +258,16 @@ def run_module_case(case):
                     out.append(CallTrace(lf, dict(recv_arg, **{n: rt(a) for n, a in tr["args"].items()}), rt(tr.get("ret")), rt(tr.get("yld"))))
             return out
         traces = traces_of(mod, case["funcs"], True)
+        if case.get("interleave"):      # the traces of one function are not adjacent: round-robin over the functions
+            per, k2 = {}, []
+            for t in traces:
+                per.setdefault(id(t.func), []).append(t)
+            queues = list(per.values())
+            while any(queues):
+                for qq in queues:
+                    if qq:
+                        k2.append(qq.pop(0))
+            traces = k2
         if case.get("other"):
             t2 = traces_of(mod2, case["other"], False)
             traces = t2 + traces if case.get("other_first") else traces + t2
@@ -326,6 +336,7 @@ def run_module_case(case):
                     for dname in s["decorators"]:
                         if dname.split(".")[0] not in ev.ns:
                             rec["tdok"] = False
+                            rec["deco_unres"] = True
                 frec["asyncok"] = s["async"] == bool(f.get("is_async"))
                 frec["stub"] = [{"name": p["name"], "kind": p["kind"], "default": p["default"]} for p in s["params"]]
                 frec["gotret"] = s["ret"]
@@ -557,9 +568,10 @@ SRC_ANNS = [None, "int", "List[int]", "Optional[int]", "'Own'", "ExtId", "zutil.
 def gen_c13(tier, seed):
     rng = random.Random(seed)
     cases = []
-    traced_opts = [None, STR, T("list", "", [STR])]
+    traced_opts = [None, STR, T("list", "", [STR]), T("cls", "mtfx.shapes.FalsyCls")]     # the last: a class whose truth value is False
     cells = [(a, t, d) for a in SRC_ANNS for t in traced_opts for d in (None, "None", "1")]
-    rets = [(None, None), (INT, None), (None, INT), (INT, STR), (NONE, STR), (NONE, None)]   # (ret, yld); exception only = (None, None)
+    FALSY = T("cls", "mtfx.shapes.FalsyCls")
+    rets = [(None, None), (INT, None), (None, INT), (INT, STR), (NONE, STR), (NONE, None), (FALSY, None), (NONE, FALSY)]   # (ret, yld); exception only = (None, None)
     sigs = []
     for c in cells:                                   # one parameter: every cell
         sigs.append([c])
@@ -602,6 +614,26 @@ def gen_c13(tier, seed):
                              "traces": [{"args": dict(targs), "ret": INT, "yld": None}]}
                         cases.append({"funcs": [f], "strategy": strategy, "k": 0, "family": "c13_matrix_other_parameter_kinds",
                                       "via_cli": n % 5 == 0})
+    # two functions whose traces arrive interleaved (f, g, f, g ...), the LAST trace of each knowing less than an earlier one
+    # (the call raised: no return type; a defaulted argument was not passed)
+    for n in range(6 if tier == "quick" else 40):
+        pa = [{"name": "a", "kind": "poskw", "default": None}, {"name": "b", "kind": "poskw", "default": "None"}]
+        mkf = lambda nm: {"name": nm, "container": [], "fkind": "module", "params": [dict(p) for p in pa],  # noqa: E731
+                          "traces": [{"args": {"a": STR, "b": INT}, "ret": INT, "yld": None},
+                                     {"args": {"a": T("cls", "bytes"), "b": INT}, "ret": STR, "yld": None},
+                                     {"args": {"a": T("cls", "bytes")}, "ret": None, "yld": None}][:2 + n % 2]}
+        for strategy in ("REPLICATE", "IGNORE"):
+            cases.append({"funcs": [mkf("parse"), mkf("render"), mkf("load")][:2 + n % 2], "strategy": strategy, "k": 0, "interleave": True,
+                          "family": "c13_interleaved_traces", "via_cli": n % 3 == 0})
+    # the same qualified name with another kind in a second module traced in the same session (both orders)
+    p1 = [{"name": "path", "kind": "poskw", "default": None}, {"name": "mode", "kind": "poskw", "default": "None"}]
+    for kinds in (("static", "instance"), ("instance", "static"), ("class", "static"), ("static", "class")):
+        mk2 = lambda fk: {"name": "open", "container": ["Backend"], "fkind": fk, "params": [dict(p) for p in p1],  # noqa: E731
+                          "traces": [{"args": {"path": T("cls", "bytes"), "mode": STR}, "ret": T("list", "", [T("cls", "bytes")]), "yld": None}]}
+        for first in (False, True):
+            for strategy in ("REPLICATE", "OMIT", "IGNORE"):
+                cases.append({"funcs": [mk2(kinds[0])], "other": [mk2(kinds[1])], "other_first": first, "strategy": strategy, "k": 0,
+                              "family": "c13_same_qualname_other_kind_in_second_module"})
     # an annotated receiver: under OMIT it must carry no annotation like every other annotated position
     for n, (fk, recv_ann) in enumerate([("instance", "'Cls'"), ("class", "type"), ("instance", "Any")] * (2 if tier == "quick" else 20)):
         params = [{"name": "p0", "kind": "poskw", "default": None, "ann": "int" if n % 2 else None}]
@@ -712,7 +744,8 @@ def gen_c11(tier, seed, env_text):
 
 CLAUSES = {"C11": {"SelfContained", "DenotesSame"},
            "C12": {"Parses", "ExactlyTraced", "Placed", "Decorated", "MirrorsSignature", "ReceiverBare"},
-           "C13": {"AnnotationMatrix", "GeneratorReturn"}}
+           # (DenotesSame = an unannotated traced position carries something else than the traced type: C11's clause and C13's)
+           "C13": {"AnnotationMatrix", "GeneratorReturn", "DenotesSame"}}
 
 
 def kinds_in(t, acc):
@@ -755,6 +788,8 @@ def signature(pid, clause, rec, case):
             cause = "typeddict_field_annotation_does_not_resolve"
         elif "newtype" in mods and rec["unres_sig"]:
             cause = "replicated_newtype_annotation_not_imported"
+        elif rec.get("deco_unres"):
+            cause = "decorator_name_not_provided"
         elif not rec["tdok"]:
             cause = "typeddict_base_not_provided"
         elif not rec["unres_sig"] and dup_names:
@@ -874,7 +909,7 @@ def main(pid, tier, seed, replay=None):
     env_text = envgen.mtenv_text()
     by_tid = {r["tid"]: r for r in records}
     case_by = {c["tid"]: c for c in cases}
-    slim = [{k: v for k, v in r.items() if k not in ("text", "err", "unres_sig", "unres_td", "dup_td")} for r in records]
+    slim = [{k: v for k, v in r.items() if k not in ("text", "err", "unres_sig", "unres_td", "dup_td", "deco_unres")} for r in records]
     verdicts, states, trans, wall = tlc.validate_shards("MTStubTrace", "MTInferTrace.cfg", slim, extra_files={"MTEnv.tla": env_text})
     mine = CLAUSES[pid]
     for v in verdicts:
